@@ -48,18 +48,35 @@ def client_to_configured_device(ctx):
     accept that precede the first refusal must land.  -> list of problems"""
     import socket, subprocess, sys, time
     from cpppo.server.enip import client, device
-    s = socket.socket(); s.bind(('127.0.0.1', 0)); port = s.getsockname()[1]; s.close()
-    proc = subprocess.Popen([sys.executable, '-m', 'cpppo.server.enip', '--no-udp', '-a', '127.0.0.1:%d' % port, '--route-path', '1/0', 'T=DINT[12]', 'U@0x99/1/3=DINT'],
+    import struct
+    for _ in range(50):
+        s = socket.socket(); s.bind(('127.0.0.1', 0)); port = s.getsockname()[1]
+        u = socket.socket(socket.AF_INET, socket.SOCK_DGRAM)
+        try:
+            u.bind(('127.0.0.1', port)); break
+        except OSError:
+            continue
+        finally:
+            u.close(); s.close()
+    proc = subprocess.Popen([sys.executable, '-m', 'cpppo.server.enip', '-a', '127.0.0.1:%d' % port, '--route-path', '1/0', 'T=DINT[12]', 'U@0x99/1/3=DINT'],
                             stdout=subprocess.DEVNULL, stderr=subprocess.DEVNULL, cwd='/')
     problems = []
     try:
-        for _ in range(150):
-            try:
-                c = socket.create_connection(('127.0.0.1', port), timeout=0.5); c.close(); break
-            except OSError:
-                time.sleep(0.1)
-        else:
-            raise core.HarnessError('configured simulator did not start')
+        # the first thing this simulator ever hears is a UDP List Identity (what a discovery scan sends); the configured personality
+        # must hold whatever came first
+        u = socket.socket(socket.AF_INET, socket.SOCK_DGRAM); u.settimeout(0.2)
+        try:
+            for _ in range(150):
+                try:
+                    u.sendto(struct.pack('<HHII8sI', 0x63, 0, 0, 0, b'scanscan', 0), ('127.0.0.1', port))
+                    if u.recvfrom(4096)[0][:2] == b'\x63\x00':
+                        break
+                except OSError:
+                    time.sleep(0.1)
+            else:
+                raise core.HarnessError('configured simulator did not start')
+        finally:
+            u.close()
         good = [None, [{'port': 1, 'link': 0}]]
         other = [[{'port': 1, 'link': 1}], [{'port': 2, 'link': 0}], [{'port': 2, 'link': '1.2.3.4'}], [{'port': 1, 'link': 0}, {'port': 2, 'link': 5}]]
         rng = ctx.rng
